@@ -338,6 +338,14 @@ func classify(s *spec, b *built) (string, string) {
 		if b.firstOff != 0 {
 			c += "-offset"
 		}
+		if strings.HasPrefix(s.Present, "backend") {
+			// "Already exists" is not said to include a blob that only the proxy backend
+			// holds: a front end that returns early only for locally present blobs and
+			// otherwise performs the upload it is given satisfies the statement too. Only
+			// the conditional obligation is judged (success => committed size is the early
+			// value or the bytes sent, blob present); what happened is counted.
+			return open, c
+		}
 		return mustSucceedEarly, c
 	}
 	if b.firstOff != 0 {
@@ -612,6 +620,10 @@ func (w *world) runCase(s *spec) {
 	wantCommitted := func() (int64, int64) {
 		// second value: an alternative that is equally covered by the statement (or the same)
 		switch {
+		case strings.HasPrefix(s.Present, "backend") && s.Kind == "identity":
+			return size, b.sentToFinish
+		case strings.HasPrefix(s.Present, "backend"):
+			return -1, b.sentToFinish
 		case s.Present != "" && s.Kind == "identity":
 			return size, size
 		case s.Present != "":
@@ -679,6 +691,16 @@ func (w *world) runCase(s *spec) {
 			r.Count("nothing-stored")
 		}
 	case open:
+		if backendOnly {
+			switch {
+			case cr.err != nil:
+				r.Count("backend-only." + s.Present + "." + s.Kind + ".failed")
+			case cr.resp != nil && cr.resp.CommittedSize == map[bool]int64{true: size, false: -1}[s.Kind == "identity"]:
+				r.Count("backend-only." + s.Present + "." + s.Kind + ".early-return-value")
+			default:
+				r.Count("backend-only." + s.Present + "." + s.Kind + ".other-committed-size")
+			}
+		}
 		if cr.err == nil {
 			r.Count("open.success")
 			successObligations()
@@ -914,6 +936,38 @@ func (w *world) noAnswer(s *spec, srv *lib.Server, keyPrefix string, detail func
 		}
 	}
 	extra := srv.Inflight() - w.parked[s.key()]
+	if extra > 0 {
+		// The handler count alone is a reading at one instant after a wall-clock settle
+		// budget: on an overloaded machine a handler that is merely slow to unwind (its Put
+		// goroutine in fsync, waiting for a disk semaphore, encoding) is still counted.
+		// The verdict needs the persistent state itself: in three dumps, spaced apart, the
+		// same handler blocked on a channel/condition with the same stack, and nothing of
+		// the server working on its behalf in any of them.
+		var views []dumpView
+		for i := 0; i < 3; i++ {
+			if i > 0 {
+				time.Sleep(time.Second * w.deadlineScale)
+			}
+			views = append(views, viewDump(lib.SelfGoroutineDump()))
+		}
+		ids, why := stablyParked(views)
+		if now := srv.Inflight() - w.parked[s.key()]; now != extra {
+			ids, why = nil, fmt.Sprintf("the number of in-flight handlers moved from %d to %d while looking", extra, now)
+		}
+		// the dump is process-wide: handlers attributed to earlier calls (any server) are in it too
+		var earlier int64
+		for _, n := range w.parked {
+			earlier += n
+		}
+		if why == "" && int64(len(ids)) <= earlier {
+			why = "every stably blocked Write handler is already attributed to an earlier call"
+		}
+		if why != "" {
+			r.Count("write.no-answer.handler-not-stably-parked")
+			r.Inconclusive(fmt.Sprintf("case %d (%s): no answer before the client deadline and %d handler(s) still in flight, but not demonstrably parked (%s); latency is not a verdict", s.ID, keyPrefix, extra, why))
+			return
+		}
+	}
 	dump := lib.SelfGoroutineDump()
 	sigs := lib.GoroutineSignatures(dump)
 	parkedSigs := map[string]int{}
